@@ -147,6 +147,7 @@ HINTS = st.fixed_dictionaries({
     "order": st.sampled_from(["C", "C", "F", "rev"]),
     "ints": st.sampled_from(["py", "np"]),
     "scalar": st.sampled_from(["py", "np32"]),
+    "stray_links": st.sampled_from([False, False, True]),
 })
 PLAIN_HINTS = {"dtype": "<f4", "order": "C", "ints": "py", "scalar": "py"}
 
@@ -224,6 +225,9 @@ def spec_data2D(draw, tier, min_items=0):
     z = sizes(tier)
     nc = draw(st.integers(min_items, z["items"]))
     nf = draw(st.integers(1, max(2, z["frames"] // 3)))
+    big = None
+    if nc and draw(st.integers(0, 24)) == 0:
+        big = ((draw(st.integers(0, nf - 1)), draw(st.integers(0, nc - 1))), draw(st.sampled_from([8191, 8192, 8193, 16384, 40000, 65535])))
     cells = []
     for f in range(nf):
         row = []
@@ -231,6 +235,8 @@ def spec_data2D(draw, tier, min_items=0):
             kind = draw(st.sampled_from(["none", "pts", "pts", "one"]))
             if kind == "none":
                 row.append(None)
+            elif big is not None and (f, c) == big[0]:
+                row.append(draw(sample_values(big[1], 2)))  # a cell whose byte size does not fit 16 bits
             else:
                 npts = 1 if kind == "one" else draw(st.integers(1, z["cells"]))
                 row.append(draw(sample_values(npts, 2)))
@@ -440,6 +446,9 @@ def _b_data3D(s, h):
     if s["format"] == 1 and (s["links"] or h.get("ints") == "np"):
         pairs = [tuple(p) for p in s["links"]]
         d.links = np.array(pairs, dtype=LinkType.btype) if h.get("ints") == "np" else pairs
+    elif s["format"] == 2 and h.get("stray_links"):
+        # a block switched to the without-links format may still carry a links attribute; that format stores none
+        d.links = [(1, 2), (3, 4), (5, 6)]
     for t in s["tracks"]:
         d.add_track(MarkerTrack(t["label"], frames_to_array(t["frames"], 3, h)))
     return d
